@@ -602,6 +602,29 @@ def build(tier, seed):
                 return nm in ("str", "Hashable")
             return super().is_kind(v, nm)
 
+        def _is_str(self, v):
+            return isinstance(v, z3.ExprRef) and v.get_id() in self.ctx.ghost.get("str_labels", ())
+
+        def _chars(self, as_tuple):
+            # iterating over a string yields its characters: SOME sequence of labels of unknown length (nothing is known about it)
+            self.ctx.havocked = True
+            return SeqV(z3.Const(self.ctx.fresh_name("characters"), TH.sort), Label, as_tuple)
+
+        def b_tuple(self, args, kw, node):
+            if args and self._is_str(args[0]):
+                return self._chars(True)
+            return super().b_tuple(args, kw, node)
+
+        def b_list(self, args, kw, node):
+            if args and self._is_str(args[0]):
+                return self._chars(False)
+            return super().b_list(args, kw, node)
+
+        def to_set(self, v):
+            if self._is_str(v):
+                return super().to_set(self._chars(False))
+            return super().to_set(v)
+
     def str_label(ctx, nm):
         c = z3.Const(ctx.fresh_name(nm), LabelSort)
         ctx.ghost.setdefault("str_labels", set()).add(c.get_id())
@@ -637,5 +660,14 @@ def build(tier, seed):
         for ob in obligations_for("C45", fc, tier):
             plan.add(ob)
         plan.fn_under_contract(WIRES, fc.qualname)
-    plan.unverified = ["string labels (isinstance(wires, str) branch)", "jax / numpy inputs", "select_random (numpy RNG)"]
+    plan.size_bounds.append("unique_wires stays size-bounded (1..K Wires objects): the lift needs sequences of set values as loop data plus a snoc-defined "
+                            "'in exactly one object' predicate related across the two loops (membership of the prefix vs. of the whole list) -- not done; "
+                            "all_wires and shared_wires are ALSO proved for a list of any number of Wires objects")
+    plan.assumed_contracts = ["itertools.chain(*(w.labels for w in L)) is the concatenation of the label sequences in list order (snoc-defined FLAT); "
+                              "functools.reduce(lambda a, b: a & b, [w.toset() for w in L]) contains x iff every object contains x (snoc-defined ALLMEM; the "
+                              "engine checks that the folded function is the set intersection), TypeError on an empty list",
+                              "dict.fromkeys(seq): duplicate-free, same members, first-occurrence order (as before)",
+                              "iterating over a string yields some sequence of characters (nothing else is assumed about it)"]
+    plan.unverified = ["jax / numpy inputs", "select_random (numpy RNG)", "all_wires(sort=True)", "list_of_wires elements that are not Wires objects "
+                       "(the Wires(wires) conversion inside all_wires)"]
     return plan
